@@ -531,6 +531,8 @@ def shape_predicates(proj):
     # an importer refers to a cycle member inside a definition (public binding or function body)
     member_in_def = False
     for f, text in proj["files"].items():
+        if f[:-3] in members:
+            continue        # partners calling each other from function bodies is the corpus style
         for line in text.split("\n"):
             if line.startswith(".") and any(re.search(r"\b%s\." % m, line.split("=", 1)[-1]) for m in members if m != f[:-3]):
                 member_in_def = True
